@@ -181,6 +181,10 @@ EXPECTED_VALIDATORS = {
     "secs_or_token": "or_token:_validate_type_secs", "list": "_validate_type_list", "dict": "_validate_type_dict",
     "bool_int": "_validate_type_bool_int", "pow2": "_validate_type_pow2", "enum": "_validate_type_enum",
     "machine": "_validate_type_machine",
+    "template_int": "_validate_type_template_int", "template_float": "_validate_type_template_float",
+    "template_float_or_token": "or_token:_validate_type_template_float", "template_bool": "_validate_type_template_bool",
+    "template_secs": "_validate_type_template_secs", "template_ms": "_validate_type_template_ms",
+    "template_str": "_validate_type_template_str", "gain": "_validate_type_gain",
 }
 
 
@@ -234,6 +238,9 @@ def translate(repo, gendir):
 
 # ==================================================================================================
 # values: tagged JSON  <->  Python  <->  Gallina
+TEMPLATE_CLASSES = ("IntTemplate", "FloatTemplate", "BoolTemplate", "StringTemplate", "TextTemplate")
+
+
 def tagv(v):
     if v is None:
         return ["n"]
@@ -256,6 +263,10 @@ def tagv(v):
     cn = type(v).__name__
     if cn == "RuntimeToken":
         return ["tok", v.token]
+    if cn == "NativeTypeTemplate":
+        return ["nat", tagv(v.value)]
+    if cn in TEMPLATE_CLASSES:
+        return ["tpl", cn, v.text]
     coll = getattr(type(v), "collection", None)
     if coll and hasattr(v, "name"):
         return ["dev", coll, v.name]
@@ -333,6 +344,12 @@ def cyv(t):
         return "(YSet %s)" % coqlist(cyv(x) for x in t[1])
     if k == "tok":
         return "(YToken %s)" % cstr(t[1])
+    if k == "nat":
+        return "(YNative %s)" % cyv(t[1])
+    if k == "tpl":
+        if not ascii_ok(t[2]):
+            raise OutOfDomain("non-ascii")
+        return "(YTemplate %s %s)" % (cstr(t[1]), cstr(t[2]))
     if k == "dev":
         return "(YDev (@nil Z) %s)" % cstr(t[2])     # compared by name (a device can be in several collections)
     raise OutOfDomain("value kind " + k)
@@ -582,9 +599,9 @@ MACHINE = {"switches": ["s1", "s2", "s_left"], "coils": ["c1", "c2"], "ball_devi
            "playfields": ["playfield"], "shot_profiles": ["default"], "combo_switches": ["both_flippers"],
            "timed_switches": ["flipper_cradle"], "psus": ["default"]}
 MODELLED = set(EXPECTED_VALIDATORS) - {"dict"} | {"dict"}
-UNMODELLED_TYPES = ["template_int", "template_float", "template_ms", "template_secs", "template_str", "template_bool",
-                    "color", "kivycolor", "gain", "int_from_hex", "subconfig(device)", "template_float_or_token",
-                    "color_or_token"]
+UNMODELLED_TYPES = ["color", "kivycolor", "int_from_hex", "subconfig(device)", "color_or_token"]
+TEMPLATE_TYPES = ["template_int", "template_float", "template_ms", "template_secs", "template_str", "template_bool",
+                  "template_float_or_token", "gain"]
 
 
 def rig_init():
@@ -685,7 +702,10 @@ WORDS = ["a", "b", "on", "off", "yes", "no", "true", "false", "t", "f", "enable"
          "c1", "nope", "S1", "(tok)", "()", "(", "(a)b", "(machine.x)", "a,b", "a, b", "a,none,b", "a, none", "a,,b",
          "a, ,b", ",", "s1,s2", "s1, nope", "1,2,3", "1, x", "ev{x>1}", "a{b,c}, d", "é", "200ms", "1.5s", "2sec",
          "1m", "1.001s", "200msec", "nan", "inf", "-inf", "NaN", "1e3", "1.5", ".5", "5.", "-3", "+4", " 7 ", "1_0",
-         "0x10", "8", "16", "7", "255", "256", "0", "-1", "1.0", "0.5", "1e400", "1.5.2", "12abc"]
+         "0x10", "8", "16", "7", "255", "256", "0", "-1", "1.0", "0.5", "1e400", "1.5.2", "12abc",
+         "{machine.x}", "(settings.a + 1)", "1 +", "current_player.score > 10", "a if b else c", "(x", "x)", "(1 +)",
+         "ev1{x>1}, ev2", "ev-a|5 ev_b{c==\"d, e\"}", "a{b", "a}b{c}", "5db", "-6 db", "-inf", "-infinity db", "db", "3dB",
+         "ev{a}{b}, c", "{}", "a {b}", "x{1\n}"]
 INTS = [0, 1, -1, 2, 3, 7, 8, 16, 100, 255, 256, 1000, -8, 2 ** 31, 2 ** 53 + 1, 10 ** 20]
 FLOATS = [0.0, -0.0, 1.0, 0.5, 1.5, -2.5, 0.1, 1e-5, 8.0, 255.0, 255.5, 1e20, float("nan"), float("inf"), float("-inf"),
           2.999, 0.999, 1.0000001]
@@ -724,8 +744,10 @@ SCALAR_VALIDATORS = ["str", "lstr", "int", "int(0,255)", "int(NONE,10)", "int(-5
                      "secs", "enum(a,b,none)", "enum(yes,no)", "enum(1,2,3)", "enum(input,output)", "enum(None,Basic,Full)",
                      "enum(true,false)", "machine(switches)", "machine(coils)", "machine(lights)", "pow2", "bool_int",
                      "list", "dict", "int_or_token", "float_or_token", "num_or_token", "bool_or_token", "ms_or_token",
-                     "secs_or_token", "int_or_token(0,10)", "event_posted", "event_handler", "bool()", "ms()"]
-ODD_VALIDATORS = ["nosuch", "nosuch(1)", "str(1)", "enum", "machine", "bool(x)", "int(5)", "int(a,b)", "pow2(1)", "float(0,1",
+                     "secs_or_token", "int_or_token(0,10)", "event_posted", "event_handler", "bool()", "ms()",
+                     "template_int", "template_float", "template_ms", "template_secs", "template_str", "template_bool",
+                     "template_float_or_token", "gain", "template_int", "template_ms", "gain", "template_float(0,1)"]
+ODD_VALIDATORS = ["template_int(1)", "gain(1)", "template_str()", "nosuch", "nosuch(1)", "str(1)", "enum", "machine", "bool(x)", "int(5)", "int(a,b)", "pow2(1)", "float(0,1",
                   "int()", "list(x)", "dict(str:int)", "secs(1)"]
 DICT_VALIDATIONS = ["str:int", "int:int", "str:str", "float:str", "str:list", "machine(switches):ms", "int:enum(input,output)",
                     "str:ms", "str:bool", "lstr:num(0,10)", "list:int", "nocolon", "str:int:x", "str:secs", "int:pow2"]
@@ -776,6 +798,15 @@ def good_item(rng, validation):
         return rng.choice(["a,b", "a, b ,c", ["a", "b"], "a", 5, None, "", "a,none"])
     if base == "dict":
         return rng.choice([{}, {"a": 1}, {"a": {"b": 2}}, None, "", 0, "x", [], [1]])
+    if base.startswith("template_"):
+        return rng.choice([5, "5", " 7 ", 1.5, "1.5", True, False, "true", "settings.a + 1", "(settings.a + 1)",
+                           "current_player.score > 10", "1 +", "(x", "{machine.x}", "abc", "a b", "2s", "1.5s", "200ms",
+                           "1m", "x if y else 3", "", None, "None", "()", "(a)", ["a"], {"a": 1}, 10 ** 20, "1e3", "nan",
+                           "machine.a|b", "not a", "a.b.c", "0x10", "1_0", "-3", "3 > 2"])
+    if base == "gain":
+        return rng.choice([0.5, "0.5", 1, 0, 2, -1, "2", "-0.5", "nan", float("nan"), "inf", "-inf", "-infinity", "-6db",
+                           "-6 dB", "0db", "db", "xdb", "abc", "", None, True, "1e-3", 1.5, "0.25", " 0.25 ", "-infdb",
+                           float("inf"), ["a"], "3dB", "1,5"])
     return rng.choice(["abc", "Abc Def", 5, 1.5, True, None, "none", "", ["a"], {"a": 1}])
 
 
@@ -872,6 +903,67 @@ def run_item(case):
     return out
 
 
+EV_RE = re.compile(r'([\w|-]+?\{.*?\}|[\w|-]+)')
+
+
+def _texts_of(t, acc):
+    k = t[0]
+    if k == "s":
+        acc.add(t[1])
+    elif k == "i":
+        acc.add(t[1])
+    elif k == "f":
+        acc.add(repr(float(t[1])))
+    elif k == "b":
+        acc.add(str(bool(t[1])))
+    elif k in ("l", "set"):
+        for x in t[1]:
+            _texts_of(x, acc)
+    elif k == "d":
+        for a, b in t[1]:
+            _texts_of(a, acc)
+            _texts_of(b, acc)
+
+
+def expr_table(values, defaults, validators):
+    """the abstract 'Python expression grammar' handed to the model: those texts of the case (and their list
+    elements) that ast.parse(text, mode='eval') accepts -- computed by the harness, not by MPF"""
+    if not any("template" in v for v in validators):
+        return []
+    acc = set()
+    for t in values:
+        _texts_of(t, acc)
+    acc.update(defaults)
+    cands = set()
+    for x in acc:
+        cands.add(x)
+        for y in x.split(","):
+            cands.add(y.strip())
+        for y in EV_RE.findall(x):
+            cands.add(y.strip())
+    out = []
+    for x in sorted(cands):
+        if not ascii_ok(x):
+            continue
+        try:
+            import warnings
+            with warnings.catch_warnings():
+                warnings.simplefilter("ignore")
+                ast.parse(x, mode="eval")
+            out.append(x)
+        except SyntaxError:
+            pass
+        except Exception:     # noqa  (null bytes, recursion: none of these is generated)
+            raise OutOfDomain("ast.parse")
+    return out
+
+
+def cmach(table):
+    if not table:
+        return "M"
+    return "(([35;101;120;112;114], %s) :: M)" % coqlist(cstr(x) for x in table)
+
+
 def cmachine():
     return coqlist("(%s, %s)" % (cstr(k), coqlist(cstr(n) for n in v)) for k, v in sorted(MACHINE.items()))
 
@@ -892,9 +984,7 @@ def validator_modelled(va):
     return True
 
 
-UNMODELLED_NAMES = {"template_float_or_token", "template_float", "template_int", "template_bool", "template_secs",
-                    "template_ms", "template_str", "int_from_hex", "kivycolor", "color", "color_or_token", "gain",
-                    "subconfig"}
+UNMODELLED_NAMES = {"int_from_hex", "kivycolor", "color", "color_or_token", "subconfig"}
 
 
 def entry_modelled(ty, va):
@@ -909,9 +999,7 @@ def item_in_domain(ty, va, t):
     """inputs the hand model covers (everything else is oracle-only and counted)"""
     if has_text(t, lambda s: not numeric_text_in_domain(s)):
         return False
-    if ty == "list" and va not in ("event_posted", "event_handler") and has_text(t, lambda s: "{" in s):
-        return False
-    if ty == "event_handler" and has_text(t, lambda s: "{" in s):
+    if has_text(t, lambda s: "\n" in s and "{" in s and not ascii_ok(s)):
         return False
     if ty == "set":
         # Python set semantics (hash order, 1 == 1.0 == True) are modelled for strings only
@@ -919,15 +1007,35 @@ def item_in_domain(ty, va, t):
             return False
         if t[0] not in ("l", "s", "n"):
             return False
-    if has_container_str(ty, va, t):
+    if has_container_str(ty, va, t) or gain_db_outside(ty, va, t):
         return False
     return True
+
+
+def _db_text(x):
+    """'<number>db': Util.db_to_gain is 10 ** (db / 20), a transcendental the model does not compute (oracle-only)"""
+    u = x.strip().lower()
+    if u.startswith("-inf") or not u.endswith("db"):
+        return False
+    try:
+        float("".join(c for c in u if not c.isalpha()))
+        return True
+    except ValueError:
+        return False
+
+
+def gain_db_outside(ty, va, t, de=""):
+    names = [split_validator(x)[0] for x in (va.split(":")[:2] if ty in ("dict", "event_handler") else [va])]
+    if "gain" not in names:
+        return False
+    return (t is not None and has_text(t, lambda x: any(_db_text(y) for y in [x] + x.split(",")))) or \
+        any(_db_text(y) for y in [de] + de.split(","))
 
 
 def has_container_str(ty, va, t):
     """str(list/dict) is not modelled: lstr / enum / secs applied to a container"""
     names = [split_validator(x)[0] for x in (va.split(":")[:2] if ty in ("dict", "event_handler") else [va])]
-    if not any(n in ("lstr", "secs", "secs_or_token") for n in names):
+    if not any(n in ("lstr", "secs", "secs_or_token", "template_str", "gain") for n in names):
         return False
 
     def deep(x, lvl):
@@ -948,18 +1056,19 @@ def coq_item(case, out):
     try:
         if not entry_modelled(ty, va) or not ascii_ok(de) or not numeric_text_in_domain(de):
             return None
+        if gain_db_outside(ty, va, None, de):
+            return None
         if "item" in case:
             if not item_in_domain(ty, va, case["item"]):
                 return None
             it = "(Some %s)" % cyv(case["item"])
         else:
             it = "(@None yv)"
-            if "{" in de:
-                return None
         o = out
         if ty == "set" and "err" in out and out["err"] != "CFE9":
             o = {"err": "CFE0"}       # a set has no iteration order: which element fails first is not modelled
-        return "((M, (%s, %s, %s), %s), %s)" % (cstr(ty), cstr(va), cstr(de), it, cres(o, cyv, "yv"))
+        mt = cmach(expr_table([case["item"]] if "item" in case else [], [de], [va]))
+        return "((%s, (%s, %s, %s), %s), %s)" % (mt, cstr(ty), cstr(va), cstr(de), it, cres(o, cyv, "yv"))
     except OutOfDomain:
         return None
 
@@ -1041,9 +1150,17 @@ def py_has_type(va, t, stats=None):
         return t[0] == "l"
     if n == "dict":
         return t[0] == "d"
-    if n in ("template_int", "template_float", "template_ms", "template_secs", "template_str", "template_bool",
-             "template_float_or_token"):
-        return t[0] in ("n", "other", "tok")
+    if n in ("template_int", "template_ms"):
+        return t[0] == "n" or (t[0] == "nat" and t[1][0] == "i") or (t[0] == "tpl" and t[1] == "IntTemplate")
+    if n in ("template_float", "template_secs"):
+        return t[0] == "n" or (t[0] == "nat" and t[1][0] == "f") or (t[0] == "tpl" and t[1] == "FloatTemplate")
+    if n == "template_bool":
+        return t[0] == "n" or (t[0] == "nat" and t[1][0] == "b") or (t[0] == "tpl" and t[1] == "BoolTemplate")
+    if n == "template_str":
+        return t[0] == "n" or (t[0] == "nat" and t[1][0] == "s") or \
+            (t[0] == "tpl" and t[1] in ("StringTemplate", "TextTemplate"))
+    if n == "gain":
+        return t[0] == "n" or (t[0] == "f" and 0.0 <= float(t[1]) <= 1.0)
     if n == "subconfig":
         return t[0] == "d"
     return None
@@ -1128,6 +1245,37 @@ def pow2_defect_only(ty, va, item_t, default, out_t):
     return hit[0] and py_has_item_type(ty, va, fixed) is not False
 
 
+# ---- known finding gain-nan-unclamped ------------------------------------------------------------------
+def _nan_like(t):
+    if t[0] == "f":
+        return float(t[1]) != float(t[1])
+    return t[0] == "s" and t[1].strip().lower() in ("nan", "+nan", "-nan")
+
+
+def gain_defect_only(ty, va, item_t, default, out_t):
+    """True iff `out_t` is ill-typed ONLY because gain positions hold NaN and a NaN text / float was among the inputs
+    (min(max(nan, 0.0), 1.0) is nan): replacing those by a gain in range makes the result well typed."""
+    names = [split_validator(x)[0] for x in (va.split(":")[:2] if ty in ("dict", "event_handler") else [va])]
+    if "gain" not in names or not any(_nan_like(x) for x in _input_elems(ty, item_t, default)):
+        return False
+    hit = [False]
+
+    def fix(t, pos):
+        if pos and t[0] == "f" and float(t[1]) != float(t[1]):
+            hit[0] = True
+            return ["f", "1.0"]
+        return t
+    if ty == "single":
+        fixed = fix(out_t, True)
+    elif ty in ("list", "set") and out_t[0] in ("l", "set"):
+        fixed = [out_t[0], [fix(x, True) for x in out_t[1]]]
+    elif ty in ("dict", "event_handler") and out_t[0] == "d":
+        fixed = ["d", [[fix(k, names[0] == "gain"), fix(v, len(names) > 1 and names[1] == "gain")] for k, v in out_t[1]]]
+    else:
+        return False
+    return hit[0] and py_has_item_type(ty, va, fixed) is not False
+
+
 def oracle_item(case, out):
     fails = []
     if out.get("spec_changed"):
@@ -1138,6 +1286,12 @@ def oracle_item(case, out):
                 pow2_defect_only(ty, va, case.get("item"), de, out["ok"]):
             fails.append({"sig": "pow2-returns-unconverted",
                           "what": "validate_config_item(%r, item=%r) returned %r: pow2 hands back the unconverted item" %
+                                  (case["spec"], case.get("item", "<absent>"), out["ok"])})
+        elif py_has_item_type(ty, va, out["ok"]) is False and \
+                gain_defect_only(ty, va, case.get("item"), de, out["ok"]):
+            fails.append({"sig": "gain-nan-unclamped",
+                          "what": "validate_config_item(%r, item=%r) returned %r: string_to_gain clamps with "
+                                  "min(max(x, 0.0), 1.0), which lets NaN through" %
                                   (case["spec"], case.get("item", "<absent>"), out["ok"])})
         elif py_has_item_type(ty, va, out["ok"]) is False:
             fails.append({"sig": "ill-typed:" + (split_validator(va)[0] if ty not in ("dict", "event_handler") else "dict"),
@@ -1384,7 +1538,8 @@ def coq_section(case, out):
             if e[0] == "item":
                 if k.startswith("_"):
                     continue
-                if not entry_modelled(e[1], e[2]) or not ascii_ok(e[3]) or "{" in e[3] or not numeric_text_in_domain(e[3]):
+                if not entry_modelled(e[1], e[2]) or not ascii_ok(e[3]) or not numeric_text_in_domain(e[3]) or \
+                        gain_db_outside(e[1], e[2], None, e[3]):
                     return None
         if src[0] == "d":
             for kt, vt in src[1]:
@@ -1397,8 +1552,10 @@ def coq_section(case, out):
         o = out
         if "err" in out and any(e[0] == "item" and e[1] == "set" for e in merged.values()):
             return None
-        return "((M, %s, %s, %s, %s), %s)" % (blit(case["allow_invalid"]), blit(case["add_missing"]),
-                                               coqlist(cspec(s) for s in specs), cyv(src), cres(o, cyv, "yv"))
+        mt = cmach(expr_table([src], [e[3] for e in merged.values() if e[0] == "item"],
+                              [e[2] for e in merged.values() if e[0] == "item"]))
+        return "((%s, %s, %s, %s, %s), %s)" % (mt, blit(case["allow_invalid"]), blit(case["add_missing"]),
+                                                coqlist(cspec(s) for s in specs), cyv(src), cres(o, cyv, "yv"))
     except OutOfDomain:
         return None
 
@@ -1492,6 +1649,10 @@ def oracle_section(case, out):
                 pow2_defect_only(e[1], e[2], src_vals.get(k), e[3], vt):
             fails.append({"sig": "pow2-returns-unconverted",
                           "what": "key %r (%s) validated to %r: pow2 hands back the unconverted item" % (k, "|".join(e[1:]), vt)})
+        elif e[0] == "item" and py_has_item_type(e[1], e[2], vt) is False and \
+                gain_defect_only(e[1], e[2], src_vals.get(k), e[3], vt):
+            fails.append({"sig": "gain-nan-unclamped",
+                          "what": "key %r (%s) validated to %r: string_to_gain lets NaN through" % (k, "|".join(e[1:]), vt)})
         elif e[0] == "item" and py_has_item_type(e[1], e[2], vt) is False:
             fails.append({"sig": "ill-typed",
                           "what": "key %r (%s) validated to %r, which is not a value of the declared type" % (k, "|".join(e[1:]), vt)})
@@ -1545,14 +1706,140 @@ HDR_SECTION = ("From Coq Require Import QArith.\nFrom C12 Require Import Base Mo
                "Definition M : machine := " + cmachine() + ".\n"
                "Definition run := section_run.\nDefinition out_eqb := section_out_eqb.\n")
 
+# ==================================================================================================
+# suite 4: histories -- several validations in a row against ONE validator object (shared config_spec, shared
+# build_spec lru_cache), sections inheriting from one another in varying base orders
+STORE_NAMES = ["alpha", "beta", "gamma", "device"]
+
+
+def gen_store(rng, tier, i):
+    names = STORE_NAMES[:rng.choice([2, 3, 3, 4])]
+    store = [[n, gen_synth_spec(rng)] for n in names]
+    # make overriding keys likely: a later section redeclares a key of an earlier one with another entry
+    for j in range(1, len(store)):
+        prev = [ke for ke in store[j - 1][1] if ke[1][0] == "item" and not ke[0].startswith("_")]
+        if prev and rng.random() < 0.7:
+            k = rng.choice(prev)[0]
+            ent = ["item", "single", rng.choice(["int_or_token", "int", "str", "ms", "bool", "float(0,1)", "enum(a,b,none)"]),
+                   rng.choice(["None", "0", "1", "a", ""])]
+            store[j][1] = [ke for ke in store[j][1] if ke[0] != k] + [[k, ent]]
+    steps = []
+    for _ in range(rng.randrange(2, 6)):
+        if steps and rng.random() < 0.25:
+            nm = list(rng.choice(steps)["names"])          # the same combination again: cache hit
+        else:
+            nm = rng.sample(names, rng.choice([1, 2, 2, 3]) if len(names) >= 3 else rng.choice([1, 2]))
+            if rng.random() < 0.04:
+                nm.append("nosuch")
+        merged = merged_spec_py([dict(store)[n] for n in nm if n in dict(store)])
+        steps.append({"names": nm, "source": tagv(gen_source_for(rng, merged)), "add_missing": rng.random() < 0.85})
+    return {"store": store, "steps": steps, "allow_invalid": rng.random() < 0.05}
+
+
+def run_store(case):
+    _need_rig()
+    from mpf.core.config_validator import ConfigValidator
+    machine = _RIG["rig"].machine
+    sd = {n: dec_spec(sp) for n, sp in case["store"]}
+    cv = ConfigValidator(machine, sd)
+    pristine = spec_fingerprint({n: dec_spec(sp) for n, sp in case["store"]})
+    old = machine.config["mpf"]["allow_invalid_config_sections"]
+    machine.config["mpf"]["allow_invalid_config_sections"] = bool(case["allow_invalid"])
+    outs = []
+    try:
+        for st in case["steps"]:
+            nm = st["names"]
+            base_arg = None if len(nm) == 1 else nm[1] if len(nm) == 2 else tuple(nm[1:])
+            out = _outcome(lambda: cv.validate_config(nm[0], untag(st["source"]), "name", base_arg, st["add_missing"]))
+            out["spec_changed"] = spec_fingerprint(cv.config_spec) != pristine
+            if all(n in sd for n in nm):
+                expected = merged_spec_py([enc for n in nm for (n2, enc) in case["store"] if n2 == n])
+                out["merged"] = [[k, e] for k, e in expected.items()]
+                out["perkey"] = perkey_outcomes(cv, expected, st["source"], st["add_missing"])
+            else:
+                out["merged"] = None
+            outs.append(out)
+    finally:
+        machine.config["mpf"]["allow_invalid_config_sections"] = old
+    return {"steps": outs}
+
+
+def _step_case(case, j):
+    st = case["steps"][j]
+    return {"specs": [dict(case["store"]).get(n, []) for n in st["names"]], "source": st["source"],
+            "add_missing": st["add_missing"], "allow_invalid": case["allow_invalid"]}
+
+
+def oracle_store(case, out):
+    fails = []
+    for j, o in enumerate(out["steps"]):
+        for f in oracle_section(_step_case(case, j), o):
+            fails.append({"sig": f["sig"], "what": "step %d of %d (%s): %s" % (j + 1, len(out["steps"]),
+                                                                         "+".join(case["steps"][j]["names"]), f["what"])})
+    return fails
+
+
+def coq_store(case, out):
+    try:
+        sd = dict(case["store"])
+        terms = []
+        for j, (st, o) in enumerate(zip(case["steps"], out["steps"])):
+            if all(n in sd for n in st["names"]):
+                sub = _step_case(case, j)
+                if coq_section(sub, dict(o, spec_seen=sub["specs"])) is None:
+                    return None
+            else:
+                cyv(st["source"])
+            terms.append("(%s, %s, %s)" % (blit(st["add_missing"]), coqlist(cstr(n) for n in st["names"]), cyv(st["source"])))
+        ents = [e for _, sp in case["store"] for _, e in sp if e[0] == "item"]
+        mt = cmach(expr_table([st["source"] for st in case["steps"]], [e[3] for e in ents], [e[2] for e in ents]))
+        return "((%s, %s, %s, %s), %s)" % (
+            mt, blit(case["allow_invalid"]), coqlist("(%s, %s)" % (cstr(n), cspec(sp)) for n, sp in case["store"]),
+            coqlist(terms), coqlist(cres(o, cyv, "yv") for o in out["steps"]))
+    except OutOfDomain:
+        return None
+
+
+def shrink_store(case):
+    for j in range(len(case["steps"])):
+        if len(case["steps"]) > 1:
+            yield dict(case, steps=case["steps"][:j] + case["steps"][j + 1:])
+    for j, st in enumerate(case["steps"]):
+        for y in shrink_value(st["source"]):
+            yield dict(case, steps=case["steps"][:j] + [dict(st, source=y)] + case["steps"][j + 1:])
+    for j, (n, sp) in enumerate(case["store"]):
+        for q in range(len(sp)):
+            yield dict(case, store=case["store"][:j] + [[n, sp[:q] + sp[q + 1:]]] + case["store"][j + 1:])
+
+
+def nontrivial_store(case, out):
+    return len(case["steps"]) >= 2 and any(len(st["names"]) > 1 for st in case["steps"])
+
+
+def describe_store(case):
+    seen = set()
+    hit = False
+    for st in case["steps"]:
+        t = tuple(st["names"])
+        hit = hit or t in seen
+        seen.add(t)
+    return "%d steps%s" % (len(case["steps"]), " cache-hit" if hit else "")
+
+
+HDR_STORE = ("From Coq Require Import QArith.\nFrom C12 Require Import Base Model.\nOpen Scope Z_scope.\n"
+             "Definition M : machine := " + cmachine() + ".\n"
+             "Definition run := store_run.\nDefinition out_eqb := store_out_eqb.\n")
+
 SUITES = [
     Suite("time", gen_time, run_time, HDR_TIME, coq_time, oracle_time, shrink_time, nontrivial_time,
           {"quick": 2500, "thorough": 100000}, describe=describe_time, shard=500),
     Suite("item", gen_item, run_item, HDR_ITEM, coq_item, oracle_item, shrink_item, nontrivial_item,
           {"quick": 3500, "thorough": 120000}, worker_init=rig_init, describe=describe_item, shard=500),
     Suite("section", gen_section, run_section, HDR_SECTION, coq_section, oracle_section, shrink_section,
-          nontrivial_section, {"quick": 1800, "thorough": 60000}, worker_init=rig_init, describe=describe_section,
+          nontrivial_section, {"quick": 1400, "thorough": 60000}, worker_init=rig_init, describe=describe_section,
           shard=300),
+    Suite("store", gen_store, run_store, HDR_STORE, coq_store, oracle_store, shrink_store, nontrivial_store,
+          {"quick": 400, "thorough": 20000}, worker_init=rig_init, describe=describe_store, shard=250),
 ]
 
 
